@@ -777,13 +777,14 @@ func ruleRD2(c *Ctx) {
 		allowed:      common,
 		requiredTrue: []string{"S.State==todo:T", "S.ClaimedBy==:T", "range-ok:F"},
 		trueAnyOf:    [][]string{{"S.EpicID==:T"}, {"call:areEpicDepsComplete:T"}},
-		falseReasons: [][]string{{"S==nil:T"}, {"S.State==todo:F"}, {"S.ClaimedBy==:F"}, {"lookup-ok:Tasks:T", "E.State==done:F", "E.State==canceled:F"}, {"S.EpicID==:F", "call:areEpicDepsComplete:F"}},
+		falseReasons: [][]string{{"S==nil:T"}, {"S.State==todo:F"}, {"S.ClaimedBy==:F"}, {"lookup-ok:Tasks:T", "E.State==done:F", "E.State==canceled:F"}, {"S.EpicID==:F", "call:areEpicDepsComplete:F"}, {"call:areEpicDepsComplete:F"}},
 	}, "ready = todo ∧ unclaimed ∧ every found dependency done|canceled ∧ epic deps complete")
 	c.checkPred(isBlocked, predSpec{
 		allowed: append(append([]string{}, common...), "S.State==blocked"),
 		trueReasons: [][]string{{"S.State==blocked:T"},
 			{"S.State==todo:T", "S.ClaimedBy==:T", "lookup-ok:Tasks:T", "E.State==done:F", "E.State==canceled:F"},
-			{"S.State==todo:T", "S.ClaimedBy==:T", "S.EpicID==:F", "call:areEpicDepsComplete:F"}},
+			{"S.State==todo:T", "S.ClaimedBy==:T", "S.EpicID==:F", "call:areEpicDepsComplete:F"},
+			{"S.State==todo:T", "S.ClaimedBy==:T", "call:areEpicDepsComplete:F"}},
 		falseReasons: [][]string{{"S==nil:T"}, {"S.State==blocked:F", "S.State==todo:F"}, {"S.State==blocked:F", "S.ClaimedBy==:F"},
 			{"S.State==blocked:F", "S.State==todo:T", "S.ClaimedBy==:T", "range-ok:F"}},
 	}, "blocked = state blocked, or todo ∧ unclaimed ∧ not ready")
@@ -793,8 +794,9 @@ func ruleRD2(c *Ctx) {
 		falseReasons: [][]string{{"E.EpicID==V:T", "E.State==done:F", "E.State==canceled:F"}},
 	}, "an epic is complete when every task with that EpicID is done|canceled")
 	c.checkPred(aedc, predSpec{
-		allowed:      []string{"range-ok", "lookup-ok:Tasks", "call:isEpic", "call:isEpicComplete"},
-		requiredTrue: []string{"range-ok:F"},
+		// (the predicate may be handed the task and answer true at once for a task outside any epic)
+		allowed:      []string{"range-ok", "lookup-ok:Tasks", "call:isEpic", "call:isEpicComplete", "S.EpicID=="},
+		trueReasons:  [][]string{{"S.EpicID==:T"}, {"range-ok:F"}},
 		falseReasons: [][]string{{"lookup-ok:Tasks:T", "call:isEpic:T", "call:isEpicComplete:F"}},
 	}, "epic deps are complete when every found dependency of the epic that is an epic is complete")
 	// (b) satisfied sets per sibling
@@ -836,6 +838,12 @@ func ruleRD2(c *Ctx) {
 							if _, ok := resolve(lk.Index).(*ssa.Parameter); ok {
 								found = true
 							}
+							// the predicate is handed the task: the key is that task's EpicID
+							if b, kn, ok := fieldLoad(lk.Index); ok && kn == "EpicID" {
+								if _, isPrm := resolve(b).(*ssa.Parameter); isPrm {
+									found = true
+								}
+							}
 						} else if _, kn, ok := fieldLoad(lk.Index); ok && kn == keyField {
 							found = true
 						} else if prm, ok := resolve(lk.Index).(*ssa.Parameter); ok {
@@ -868,6 +876,10 @@ func ruleRD2(c *Ctx) {
 			for _, call := range callsTo(g, aedc) {
 				for _, a := range call.Common().Args {
 					if _, n, okf := fieldLoad(a); okf && n == "EpicID" {
+						ok = true
+					}
+					// handed the task itself (g.epicDepsComplete(task)): the callee reads its EpicID (d:scans-epic-deps)
+					if p, isPrm := resolve(a).(*ssa.Parameter); isPrm && namedTypeName(p.Type()) == "ergo.Task" {
 						ok = true
 					}
 				}
